@@ -11,8 +11,8 @@ import common
 from framework import Case, Finding
 
 PROP = "C13"
-GENERATED = ['Guards', 'SrcDecorate', 'SrcHints', 'SrcDeps', 'SrcLogs', 'SrcConstants', 'SrcLogCalls', 'HintLoop', 'Decorate', 'Wrapper', 'Core', 'Classes', 'ClassDecor', 'Resolve']  # generated files this check's tie depends on
-LEAN_MODULES = ["Properties.C13", "Properties.Prov.Decorate", "Properties.Prov.Hints", "Properties.Prov.Deps", "Properties.Prov.Logs", "Properties.Prov.Constants", "Properties.Prov.LogCalls", "Properties.CoreHints", "Properties.CoreDecorate", "Properties.CoreWrap", "Properties.Core", "Properties.CoreClasses", "Properties.CoreClassDecor", "Properties.CoreResolve"]
+GENERATED = ['Guards', 'SrcDecorate', 'SrcHints', 'SrcDeps', 'SrcLogs', 'SrcConstants', 'SrcLogCalls', 'HintLoop', 'Decorate', 'Wrapper', 'Core', 'Classes', 'ClassDecor', 'Resolve', 'SrcSurface']  # generated files this check's tie depends on
+LEAN_MODULES = ["Properties.C13", "Properties.Prov.Decorate", "Properties.Prov.Hints", "Properties.Prov.Deps", "Properties.Prov.Logs", "Properties.Prov.Constants", "Properties.Prov.LogCalls", "Properties.CoreHints", "Properties.CoreDecorate", "Properties.CoreWrap", "Properties.Core", "Properties.CoreClasses", "Properties.CoreClassDecor", "Properties.CoreResolve", "Properties.Prov.Surface"]
 NEEDS_DTYPES = False
 RULE = (
     "exhaustive matrix in fresh interpreters: DLTYPE_DISABLE in {unset, 0, 1, true, false, yes, lower-case variable name=1} x "
@@ -91,7 +91,19 @@ def odd():
     @dataclass
     class D1:
         x: Annotated[int, A]
-    return {"dltyped": [(g1, {}), (g2, {}), (g3, {"scope_provider": "self"}), (g4, {})], "dltyped_namedtuple": [(N1, {})], "dltyped_dataclass": [(D1, {})]}
+    # ... and objects it accepts but that are not plain functions / carry metadata the checker skips with a log line: a staticmethod /
+    # classmethod OBJECT (the decorator written above @staticmethod), a hint with foreign Annotated metadata next to a real one
+    def g5(x: Annotated[np.ndarray, A], n: Annotated[int, "count"] = 0, m: Annotated[np.ndarray, "doc", A] = None): return 1
+    def g6(cls, x: Annotated[np.ndarray, A]): return 1
+    class N2(NamedTuple):
+        x: Annotated[np.ndarray, A]
+        n: Annotated[int, "count"] = 0
+    @dataclass
+    class D2:
+        x: Annotated[np.ndarray, A]
+        n: Annotated[int, "count"] = 0
+    return {"dltyped": [(g1, {}), (g2, {}), (g3, {"scope_provider": "self"}), (g4, {}), (staticmethod(g3), {}), (classmethod(g6), {}), (g5, {})],
+            "dltyped_namedtuple": [(N1, {}), (N2, {})], "dltyped_dataclass": [(D1, {}), (D2, {})]}
 class ProvNP:
     # sizes that are integers but not Python ints (np.prod / .max() / indexing an integer array hand back such values)
     def get_dltype_scope(self):
@@ -175,7 +187,7 @@ def custom(run, tier):
                 want_odd = base[f"{kind}/True"]["odd"] if enabled else ["identity"] * len(got["odd"])
                 if got["odd"] != want_odd:
                     i = next(i for i, (a, b) in enumerate(zip(got["odd"], want_odd)) if a != b)
-                    run.findings.append(Finding("failing-input", f"{kind}(enabled={en}) under DISABLE={dis} DEBUG_MODE={dbg}: decorating object #{i} whose hints the enabled decorator refuses gives {got['odd'][i]!r}, expected {want_odd[i]!r}", c, got["odd"][i]))
+                    run.findings.append(Finding("failing-input", f"{kind}(enabled={en}) under DISABLE={dis} DEBUG_MODE={dbg}: decorating object #{i} of the odd-decoration family gives {got['odd'][i]!r}, expected {want_odd[i]!r}", c, got["odd"][i]))
                 want_prov = base[f"{kind}/True"]["prov"] if enabled else ["ok"] * len(got["prov"])
                 if got["prov"] != want_prov:
                     i = next(i for i, (a, b) in enumerate(zip(got["prov"], want_prov)) if a != b)
